@@ -666,6 +666,12 @@ func (sm *Sim) doSearch(s *Sess) {
 	}
 	if retSave {
 		s.res = reqUIDs
+		if junk || len(optional) > 0 {
+			// whether a malformed message matches, and whether a message not yet announced is
+			// included, is not specified: the content of '$' is then not known to the model, which
+			// does not use it until the next SAVE
+			s.res = nil
+		}
 	}
 	// parse
 	var got []uint32
